@@ -70,7 +70,7 @@ CHECKS["C12"] = dict(
          "another point count) and for generated API histories (quick 8, "
          "thorough 96) every allocation index made from libvna source text "
          "is failed once (thorough: all, about 80 000 runs; quick: all of "
-         "four scripts, every 7th / 5th of the rest). "
+         "the scripted histories, every 3rd of the generated ones). "
          "The faulted call must succeed or fail with ENOMEM, nothing may "
          "crash or leak, between a failed call and its retry every live "
          "object is dumped and every parameter handle evaluated (usable "
